@@ -405,12 +405,39 @@ func (v VT) Go() any {
 		if v.Rep == 9 && len(v.Keys) == 0 {
 			return map[string]any(nil)
 		}
+		if v.Rep == 1 {
+			m := map[NStr]any{}
+			for i, k := range v.Keys {
+				m[NStr(k)] = v.Items[i].Go()
+			}
+			return m
+		}
 		m := map[string]any{}
 		for i, k := range v.Keys {
 			m[k] = v.Items[i].Go()
 		}
 		return m
 	case "imap":
+		small := true
+		for _, k := range v.IKeys {
+			if k < 0 || k > 255 {
+				small = false
+			}
+		}
+		switch {
+		case v.Rep == 1:
+			m := map[int64]any{}
+			for i, k := range v.IKeys {
+				m[k] = v.Items[i].Go()
+			}
+			return m
+		case v.Rep == 2 && small:
+			m := map[uint8]any{}
+			for i, k := range v.IKeys {
+				m[uint8(k)] = v.Items[i].Go()
+			}
+			return m
+		}
 		m := map[int]any{}
 		for i, k := range v.IKeys {
 			m[int(k)] = v.Items[i].Go()
@@ -523,6 +550,12 @@ func (v VT) vary(r *RNG, types, inner bool) VT {
 	case "smap":
 		if len(v.Keys) == 0 {
 			out.Rep = 9
+		} else if types {
+			out.Rep = r.Intn(2)
+		}
+	case "imap":
+		if types {
+			out.Rep = r.Intn(3)
 		}
 	}
 	return out
